@@ -103,3 +103,12 @@ CHECKS["C17"]["text"] += (" Synthetic registry files through the line parser: de
                           "junk of every length 1..120 of 1- to 4-byte characters in both columns, errors must carry the physical line number.")
 CHECKS["C18"]["text"] += _GUARD
 CHECKS["C13"]["text"] += _GUARD
+
+# ---- round 6 ---------------------------------------------------------------------------------------------------------------
+CHECKS["C02"]["text"] += " Every ordered pair of the 27 contextual code points in passing and failing contexts, and 0..300 fillers between a contextual code point and what decides its rule (drivers ctxpairs / ctxlimits, judged by TLC)."
+CHECKS["C03"]["text"] += " Every ordered pair of the 27 contextual code points in passing and failing contexts, and 0..300 fillers between a contextual code point and what decides its rule (drivers ctxpairs / ctxlimits, judged by TLC)."
+CHECKS["C13"]["text"] += " The two rule sets Nickname binds to stabilize are exercised one after the other on the same strings (echo trace: enforce, then compare of the result with its respellings), judged by TLC."
+CHECKS["C17"]["text"] += " The parser as an Iterator: nth, skip, count, last, step_by on fresh parsers must deliver the items repeated next() delivers; descriptions with quotation marks."
+CHECKS["C18"]["text"] += " Code level, real tables: every code point as search key of the anchored look-ups (derived-property tables, context tables, Bidi_Class, width mapping, space separators) through the per-code-point trace judged by TLC."
+for _id in ("C01", "C06", "C08"):
+    CHECKS[_id]["text"] += " Expanders: the code points of maximal NFKC / NFC / lower-case expansion (found by computation) repeated 1..64 times."
